@@ -208,6 +208,22 @@ pub fn exec(op: &str, a: &[Vec<u8>]) -> Out {
             }
             Out::Ok(verify_all(&pk, &a[1], &sig, &a[3], a[4][0] & 1 == 1))
         }
+        // [pk1, pk2]: equality and hashing of verifying keys are defined on the key BYTES (two encodings of the
+        // same point are different keys: the bytes enter the challenge hash)
+        "sig.key_eq" => {
+            let (k1, k2) = (need!(b32(&a[0])), need!(b32(&a[1])));
+            let (v1, v2) = match (VerifyingKey::from_bytes(&k1), VerifyingKey::from_bytes(&k2)) {
+                (Ok(x), Ok(y)) => (x, y),
+                _ => return Out::Rej,
+            };
+            let hh = |k: &VerifyingKey| {
+                use std::hash::{Hash, Hasher};
+                let mut s = std::collections::hash_map::DefaultHasher::new();
+                k.hash(&mut s);
+                s.finish()
+            };
+            Out::Ok(vec![(v1 == v2) as u8, (hh(&v1) == hh(&v2)) as u8, (v1.to_bytes() == k1) as u8, (v1.to_edwards() == v2.to_edwards()) as u8])
+        }
         // [seed, msg, sig, ctx, has_ctx]: the verifiers offered by the SIGNING key (they wrap its verifying key):
         // verify, verify_strict, Verifier::verify, verify_prehashed
         "sig.verify_sk" => {
